@@ -105,13 +105,15 @@ Proof.
     destruct K as (t & T & Ge & K). rewrite Ge. split; [lia|].
     eapply UPD; [exact K|]. intros c0 K1 K2. simpl. split; [eapply TU; eauto; discriminate | congruence].
   - wc H c c' Hg Hf. destruct (get_some _ _ _ Hg) as (Hn & _). split; [simpl; lia|].
-    assert (K : exists t, trans (cst c) ABORTABLE = Some t /\ c' = c_clear c t).
+    assert (K : exists t, trans (cst c) ABORTABLE = Some t /\ c' = c_err c t).
     { destruct (slot c) as [[[] ?]|]; try discriminate; destruct (cst c); try discriminate;
+        destruct (forallb _ (queue c)); try discriminate;
         match type of Hf with match ?t with _ => _ end = _ => destruct t eqn:T end; try discriminate;
         inversion Hf; eauto. }
     destruct K as (t & T & ->).
     eapply UPD; [reflexivity|]. intros c0 K1 K2. simpl. split; [eapply TU; eauto; discriminate | congruence].
   - wc H c c' Hg Hf. destruct (get_some _ _ _ Hg) as (Hn & _). split; [simpl; lia|].
+    destruct ((tcode (cst c) =? 1)%Z) eqn:Eu; [discriminate|].
     destruct (trans (cst c) FATAL) eqn:T; [|discriminate]. inv_some.
     eapply UPD; [reflexivity|]. intros c0 K1 K2. simpl. split; [eapply TU; eauto; discriminate | congruence].
   - destruct (nth_error (clients s) i) as [c|] eqn:Hn; [|discriminate]. inv_some. split; [simpl; lia|].
@@ -336,27 +338,12 @@ Proof.
     eexists. eexists. split; [reflexivity|]. split; [simpl; eapply nth_set_nth_eq; eauto|]. split; reflexivity.
 Qed.
 
-(* ---------- what the code does not guarantee: witnesses ----------------------------------------------- *)
-(* (recorded from the real producer under the simulator; harness/c07.py replays them on the real
+(* ---------- what the code does not guarantee: witness --------------------------------------------------- *)
+(* (recorded from the real producer under the simulator; harness/c07.py re-records it on the real
    code on every run) *)
 
-(* GROUP_AUTHORIZATION_FAILED on AddOffsetsToTxn; abort_transaction() returns without EndTxn; the
-   next transaction commits both *)
-Definition w_abort_without_endtxn : list event :=
-  [EInitOk; AStart 0 0; ABegin 0; AAccept 0 1 0 0 true; TPick 0 (Some KParts); AOffsets 0 [7];
-   RAddParts 0 [0] VApplied; CPartAdded 0 0; TDone 0; TPick 0 (Some KOffs); SDrain 0 0; RAddOffs 0 VNot;
-   RProduce 0 0 VApplied; AError 0; TDone 0; AAborting 0; TPick 0 (Some KEnd); SOk 0 0; AComplete 0; TDone 0;
-   ABegin 0; AAccept 0 2 0 1 true; TPick 0 (Some KParts); ACommitting 0; RAddParts 0 [0] VApplied;
-   CPartAdded 0 0; TDone 0; TPick 0 (Some KEnd); SDrain 0 1; RProduce 0 1 VApplied; SOk 0 1;
-   REndTxn 0 true VApplied; EMarkers; AComplete 0; TDone 0].
-
-(* TOPIC_AUTHORIZATION_FAILED on AddPartitionsToTxn; the muted batch is produced anyway *)
-Definition w_unregistered_produce : list event :=
-  [EInitOk; AStart 0 0; ABegin 0; AAccept 0 1 1 0 true; TPick 0 (Some KParts); ACommitting 0;
-   RAddParts 0 [1] VNot; AError 0; TDone 0; AAborting 0; TPick 0 (Some KEnd); SDrain 0 0;
-   RProduce 0 0 VApplied; SOk 0 0; AComplete 0; TDone 0].
-
-(* a batch fails non-retriably; commit_transaction() returns nevertheless *)
+(* a batch fails non-retriably (TOPIC_AUTHORIZATION_FAILED in the Produce response);
+   commit_transaction() returns nevertheless *)
 Definition w_commit_without_batch : list event :=
   [EInitOk; AStart 0 0; ABegin 0; AAccept 0 1 0 0 true; TPick 0 (Some KParts); ACommitting 0;
    RAddParts 0 [0] VApplied; CPartAdded 0 0; TDone 0; TPick 0 (Some KEnd); SDrain 0 0; SFail 0 0;
@@ -364,26 +351,34 @@ Definition w_commit_without_batch : list event :=
 
 Definition ended_tags (s : gstate) : list (tag * outcome) := map (fun x => fst x) (ended s).
 
-Lemma witness_abort_without_endtxn :
-  exists s, run (g0 1) w_abort_without_endtxn = Some s /\
-            ended_tags s = [((0, 1), OAborted); ((0, 2), OCommitted)] /\
-            (* record 1 of the ABORTED transaction (0,1) is visible to read-committed readers *)
-            rc_view_t (log_of 0 (glog (genv s))) = [((0, 1), 1); ((0, 2), 2)] /\
-            first_ob (g0 1) w_abort_without_endtxn 0 = Some (18, 4).
-Proof. eexists. split; [vm_compute; reflexivity|]. repeat split. Qed.
-
-Lemma witness_unregistered_produce :
-  exists s, run (g0 1) w_unregistered_produce = Some s /\
-            (* the batch was appended although the coordinator never registered partition 1:
-               obligation 1 (add_before_produce) is broken at event 12, the RProduce *)
-            first_ob (g0 1) w_unregistered_produce 0 = Some (12, 1) /\
-            est (genv s) = EEmpty /\ eparts (genv s) = [] /\
-            rc_open_t (log_of 1 (glog (genv s))) = [((0, 1), 1)].
-Proof. eexists. split; [vm_compute; reflexivity|]. repeat split. Qed.
-
 Lemma witness_commit_without_batch :
   exists s, run (g0 1) w_commit_without_batch = Some s /\
             ended s = [((0, 1), OCommitted, [(1, 0)])] /\
             rc_view_t (log_of 0 (glog (genv s))) = [] /\
             first_ob (g0 1) w_commit_without_batch 0 = Some (12, 2).
 Proof. eexists. split; [vm_compute; reflexivity|]. repeat split. Qed.
+
+(* the repaired paths, as traces of the real producer (re-recorded on every run):
+   GROUP_AUTHORIZATION_FAILED on AddOffsetsToTxn -> abort sends EndTxn(ABORT), the aborted record
+   stays invisible and the next transaction commits alone *)
+Definition t_abort_after_abortable_error : list event :=
+  [EInitOk; AStart 0 0; ABegin 0; AAccept 0 1 0 0 true; TPick 0 (Some KParts); AOffsets 0 [7];
+   RAddParts 0 [0] VApplied; CPartAdded 0 0; TDone 0; TPick 0 (Some KOffs); SDrain 0 0; RAddOffs 0 VNot;
+   RProduce 0 0 VApplied; SOk 0 0; AError 0; TDone 0; AAborting 0; TPick 0 (Some KEnd);
+   REndTxn 0 false VApplied; EMarkers; AComplete 0; TDone 0;
+   ABegin 0; AAccept 0 2 0 1 true; TPick 0 (Some KParts); ACommitting 0; RAddParts 0 [0] VApplied;
+   CPartAdded 0 0; TDone 0; TPick 0 (Some KEnd); SDrain 0 1; RProduce 0 1 VApplied; SOk 0 1;
+   REndTxn 0 true VApplied; EMarkers; AComplete 0; TDone 0].
+
+(* TOPIC_AUTHORIZATION_FAILED on AddPartitionsToTxn -> the waiting batch is failed, nothing is produced *)
+Definition t_unauthorized_partition : list event :=
+  [EInitOk; AStart 0 0; ABegin 0; AAccept 0 1 1 0 true; TPick 0 (Some KParts); ACommitting 0;
+   RAddParts 0 [1] VNot; SFail 0 0; AError 0; TDone 0; AAborting 0; TPick 0 (Some KEnd); AComplete 0; TDone 0].
+
+Lemma repaired_traces_satisfy_obligations :
+  (exists s, run_ob (g0 1) t_abort_after_abortable_error = Some s /\
+             ended_tags s = [((0, 1), OAborted); ((0, 2), OCommitted)] /\
+             rc_view_t (log_of 0 (glog (genv s))) = [((0, 2), 2)]) /\
+  (exists s, run_ob (g0 1) t_unauthorized_partition = Some s /\
+             ended_tags s = [((0, 1), OAborted)] /\ glog (genv s) = []).
+Proof. split; eexists; (split; [vm_compute; reflexivity|]); repeat split. Qed.
